@@ -275,6 +275,26 @@ func evalInjection(h *hz.H, md protoreflect.MessageDescriptor, base []byte, base
 		h.Violate(key("discard/value"), fmt.Sprintf("DiscardUnknown changed something other than unknown fields for stream %s:\n reference %s\n generated %s", clip(stream), clips(wantD), clips(gotD)), cc)
 		return
 	}
+	// the same with a recursion limit at, just above and just below the stream's nesting depth: wherever both decoders
+	// accept, nothing unknown survives (the option must reach the message decoded with the last unit of budget too)
+	if len(injs) == 1 {
+		for limit := 1; limit <= 5; limit++ {
+			o := proto.UnmarshalOptions{DiscardUnknown: true, RecursionLimit: limit}
+			dl := enum.NewDyn(md)
+			if o.Unmarshal(stream, dl) != nil {
+				continue
+			}
+			gl := enum.NewGo(md)
+			var el error
+			if p := hz.Catch(func() { el = o.Unmarshal(append([]byte(nil), stream...), gl) }); p != nil || el != nil {
+				continue // agreement on the limit itself is C06's business
+			}
+			if gotL := enum.Canon(enum.Slow(gl), true); strings.Contains(gotL, "?:") || gotL != enum.Canon(dl, false) {
+				h.Violate(key(fmt.Sprintf("discard/recursion-limit=%d", limit)), fmt.Sprintf("DiscardUnknown with RecursionLimit %d on stream %s: generated %s, reference %s", limit, clip(stream), clips(gotL), clips(enum.Canon(dl, false))), cc)
+				return
+			}
+		}
+	}
 	// and it equals the discard-decode of the base stream without the injected records
 	gb := enum.NewGo(md)
 	if p := hz.Catch(func() { err = proto.UnmarshalOptions{DiscardUnknown: true}.Unmarshal(append([]byte(nil), base...), gb) }); p == nil && err == nil {
